@@ -1,7 +1,7 @@
 """Translator, part 5: the term level of the decoder -> lean/JellyGenerated/DecGen.lean.
 
     pyjelly/parse/decode.py : Decoder.ingest_prefix_entry / ingest_name_entry / ingest_datatype_entry,
-                              Decoder.decode_iri, Decoder.decode_literal
+                              Decoder.decode_iri, Decoder.decode_literal, Decoder.validate_stream_options
 
 The reader-side counterpart of `encode_iri_indices` / `encode_literal`: what an entry row does to the three tables, how a
 (prefix id, name id) pair becomes an IRI string and how an `RdfLiteral` message becomes (lex, language, datatype). The methods
@@ -199,6 +199,57 @@ class DecMethod(ge.EncMethod):
         return gt.Method.render(self)
 
 
+# -- Decoder.validate_stream_options: a run of `assert <own option> <op> <option of the row>` ---------------------
+PO_FIELDS = {("stream_types", "physical_type"): "physical", ("stream_types", "logical_type"): "logical",
+             ("params", "stream_name"): "streamName", ("params", "version"): "version",
+             ("params", "generalized_statements"): "generalized", ("params", "rdf_star"): "rdfStar",
+             ("lookup_preset", "max_names"): "maxNames", ("lookup_preset", "max_prefixes"): "maxPrefixes",
+             ("lookup_preset", "max_datatypes"): "maxDatatypes"}
+ROW_FIELDS = {"physical_type": "physicalType", "logical_type": "logicalType", "stream_name": "streamName", "version": "version",
+              "generalized_statements": "generalized", "rdf_star": "rdfStar", "max_name_table_size": "maxNames",
+              "max_prefix_table_size": "maxPrefixes", "max_datatype_table_size": "maxDatatypes"}
+OPS = {ast.Eq: "{a} == {b}", ast.GtE: "decide ({a} ≥ {b})", ast.LtE: "decide ({a} ≤ {b})", ast.NotEq: "{a} != {b}",
+       ast.Gt: "decide ({a} > {b})", ast.Lt: "decide ({a} < {b})"}
+
+
+def render_validate(cd: ast.ClassDef, tree: ast.Module) -> str:
+    fn = next((f for f in cd.body if isinstance(f, ast.FunctionDef) and f.name == "validate_stream_options"), None)
+    if fn is None:
+        raise Unsupported(f"{SRC}: Decoder.validate_stream_options not found")
+    po = next((n for n in tree.body if isinstance(n, ast.ClassDef) and n.name == "ParserOptions"), None)
+    if po is None:
+        raise Unsupported(f"{SRC}: ParserOptions not found")
+    order = [s.target.id for s in po.body if isinstance(s, ast.AnnAssign) and isinstance(s.target, ast.Name)]
+    a = fn.args
+    if len(a.args) != 2 or a.vararg or a.kwarg or a.kwonlyargs or a.defaults:
+        fail(fn, "parameter list")
+    row = a.args[1].arg
+    groups: dict[str, str] = {}
+    lines = [f"def Decoder.validate_stream_options ({row} : Options) : M Jelly.DecState Unit := do"]
+    for s in fn.body:
+        if isinstance(s, ast.Expr) and isinstance(s.value, ast.Constant) and isinstance(s.value.value, str):
+            continue
+        # a, b, c = self.options
+        if isinstance(s, ast.Assign) and len(s.targets) == 1 and isinstance(s.targets[0], ast.Tuple) and ast.unparse(s.value) == "self.options" \
+                and len(s.targets[0].elts) == len(order) and all(isinstance(e, ast.Name) for e in s.targets[0].elts):
+            groups = {e.id: g for e, g in zip(s.targets[0].elts, order)}
+            continue
+        if isinstance(s, ast.Assert) and s.msg is None and isinstance(s.test, ast.Compare) and len(s.test.ops) == 1 and type(s.test.ops[0]) in OPS:
+            def side(e):
+                if isinstance(e, ast.Attribute) and isinstance(e.value, ast.Name):
+                    if e.value.id in groups and (groups[e.value.id], e.attr) in PO_FIELDS:
+                        return f"(← get).opts.{PO_FIELDS[(groups[e.value.id], e.attr)]}"
+                    if e.value.id == row and e.attr in ROW_FIELDS:
+                        return f"{row}.{ROW_FIELDS[e.attr]}"
+                fail(e, "operand of an assert")
+            lines.append("  pyAssert (" + OPS[type(s.test.ops[0])].format(a=side(s.test.left), b=side(s.test.comparators[0])) + ")")
+            continue
+        fail(s, "statement")
+    if len(lines) == 1:
+        lines.append("  pure ()")
+    return "\n".join(lines)
+
+
 def translate() -> str:
     tree = ast.parse((REPO / SRC).read_text())
     cd = next((n for n in tree.body if isinstance(n, ast.ClassDef) and n.name == "Decoder"), None)
@@ -216,6 +267,10 @@ def translate() -> str:
         out.append(f"/-- `Decoder.{m}` ({SRC}:{fn.lineno}) -/")
         out.append(DecMethod(fn).render())
         out.append("")
+    vfn = next((f for f in cd.body if isinstance(f, ast.FunctionDef) and f.name == "validate_stream_options"), None)
+    out.append(f"/-- `Decoder.validate_stream_options` ({SRC}:{getattr(vfn, 'lineno', '?')}) -/")
+    out.append(render_validate(cd, tree))
+    out.append("")
     out.append("end Jelly.Gen")
     return "\n".join(out) + "\n"
 
